@@ -78,7 +78,7 @@ PROPS = {
  "C11": {
   "props_modules": ["Ps3.Props.C11"],
   "streams": [{"name": "c11", "bad_obs": BAD_OBS}],
-  "rule": "the product {PS3ISO,ps3iso,Ps3IsO,GAMES,PS3ISO2} x {.iso,.ISO,.IsO,.bin,.iso.bak,none} x {no key, adjacent, REDKEY, both (different keys), malformed adjacent (+valid REDKEY), malformed REDKEY, short adjacent, directory as key file, REDKEY being a regular file, 255-byte image name whose key name cannot exist} x {no, encrypted, decrypted watermark} x lengths {0x1000,0x106f,0x1070,0x1071,0x3000,0x8800} (5400 layouts, nested or not) x 11 reads overlapping 0xF70..0x1070; quick samples 12%, thorough enumerates all; oracle = the harness's own decision table + reference transformation",
+  "rule": "the product {PS3ISO,ps3iso,Ps3IsO,GAMES,PS3ISO2} x {.iso,.ISO,.IsO,.bin,.iso.bak,none} x {no key, adjacent, REDKEY, both (different keys), malformed adjacent (+valid REDKEY), malformed REDKEY, short adjacent, directory as key file, REDKEY being a regular file, 255-byte image name whose key name cannot exist} x {no, encrypted, decrypted watermark} x lengths {0xF7F,0xF80,0xF8F,0xF90,0x1000,0x106f,0x1070,0x1071,0x3000,0x8800} with as much of the watermark and key as fits (9000 layouts, nested or not) x 11 reads overlapping 0xF70..0x1070; quick samples 12%, thorough enumerates all; oracle = the harness's own decision table + reference transformation",
   "assumptions": ["'any case' = Go strings.ToLower equality"] + _CONN_ASSUME,
  },
  "C20": {
@@ -121,7 +121,7 @@ PROPS = {
  "C13": {
   "props_modules": ["Ps3.Props.C13"],
   "streams": [{"name": "c13"}, {"name": "conn", "bad_obs": BAD_OBS}],
-  "rule": "9 scenarios (plain file, generated image with lazily opened member files, encrypted image with the key under REDKEY / beside the image / in both places (different keys), 3k3y image, CD image whose sector size is probed at open + READ_CD, enumeration + dir-size, upload) x ONE fault (error / short read / bytes-with-error) at every filesystem operation index of the session (recorder under BasePathFs), and random PAIRS of faults up to 5 operations apart (10 per scenario, thorough 150), each judged by the Lean predicate Spec.C13.judge against the fault-free run: handles all released, server still serving, every response equal to the fault-free one, or the failure code, or a correct prefix then close, or still-correct listing data; short reads must change nothing. "
+  "rule": "9 scenarios (plain file, generated image with lazily opened member files, encrypted image with the key under REDKEY / beside the image / in both places (different keys), 3k3y image, CD image whose sector size is probed at open + READ_CD, enumeration + dir-size, upload) x ONE fault (error / short read / bytes-with-error) at every filesystem operation index of the session (recorder under BasePathFs), and random PAIRS of faults up to 5 operations apart (10 per scenario, thorough 150), each judged by the Lean predicate Spec.C13.judge against the fault-free run: handles all released, server still serving, every response equal to the fault-free one, or the failure code, or a correct prefix then close, or still-correct listing data (a directory size has no such form: exact or -1); after an OPEN_FILE answered with the failure code nothing may be served; short reads must change nothing. "
           "Plus every scenario cut at every request index by an abrupt close in the middle of a command (ledger must drain). conn: random sessions, ledger must be empty after each",
   "assumptions": ["the recorder is the ledger of the real code (open/close of every afero.File under the handler)", "goroutine termination is observed through the ledger draining and a fresh-connection probe, not proved",
                   "timeouts and resets of a real TCP connection reach the same exit path (deferred Context.Close) as the in-memory close used here"] + _CONN_ASSUME,
